@@ -1115,8 +1115,8 @@ def fsfault_item(env, item):
     try:
         shutil.rmtree(d, ignore_errors=True); x = new_exec(env, d, conf=clone_golden(env, d)); st = prologue(x, call)
         if item['k'] == 0:
-            x.call('fs', mode='count', root=root); victim(x, st); n = x.call('fs', mode='status')['nops']; x.call('fs', mode='off'); p.extra_n = n; p.count('fsfault_ops:' + call, n); x.kill(); return p
-        x.call('fs', mode='fail', root=root, k=item['k'], errno=item['errno'], sticky=item['sticky']); phase = 'faulted call'
+            x.call('fs', mode='count', root=root, reads=True); victim(x, st); n = x.call('fs', mode='status')['nops']; x.call('fs', mode='off'); p.extra_n = n; p.count('fsfault_ops:' + call, n); x.kill(); return p
+        x.call('fs', mode='fail', root=root, k=item['k'], errno=item['errno'], sticky=item['sticky'], reads=True); phase = 'faulted call'
         rs = victim(x, st); inj = x.call('fs', mode='status').get('injected'); x.call('fs', mode='off'); phase = 'epilogue'
         for r in rs:
             if r.get('rvname', '').startswith('CKR_?') or r.get('rv', 0) < 0: p.violation(f'{call}|fs-fault|not-a-CKR-code', 'a call whose file-system operation failed returned something that is not a PKCS#11 return code', {'rv': r.get('rv')})
